@@ -138,7 +138,7 @@ func runTape(p *Property, tier string, t *Tape, render bool, agg *Ctx) (res Case
 		defer func() {
 			if r := recover(); r != nil {
 				if _, ok := r.(stepLimit); ok {
-					res.V = &Violation{Clause: p.ID + ".nontermination", Msg: fmt.Sprintf("step bound exceeded (%d yields) outside a guarded call", c.Steps)}
+					res.V = &Violation{Clause: p.ID + ".nontermination", Msg: fmt.Sprintf("step bound exceeded (%d yields) outside a guarded call", c.opSteps)}
 					return
 				}
 				// a panic that escaped a guarded call is a harness defect
@@ -283,6 +283,18 @@ func coordinator(args []string) int {
 	os.Setenv("VERIF_INSTR", *isum)
 	seed := envSeed()
 	n := p.Cases(*tier)
+	if os.Getenv("VERIF_DISKMODE") == "real" {
+		// real files cost a system call per byte read: fewer cases in the fall-back disk mode
+		switch p.ID {
+		case "C19":
+			n /= 12
+		case "C15":
+			n /= 4
+		case "C16":
+			n /= 2
+		}
+		fmt.Println("verif: real-file disk mode (the tree names *os.File explicitly): read schedules, EIO and reported write errors are not injected into files")
+	}
 	if s := os.Getenv("VERIF_CASES"); s != "" {
 		if v, err := strconv.Atoi(s); err == nil {
 			n = v
